@@ -31,6 +31,11 @@ CAR2D = ("dubins", "reedsshepp")
 CONSTRAINED = ("projected", "atlas", "tangentbundle")
 
 
+def is_con(k):
+    """projected|atlas|tangentbundle[:sphere|:plane|:torus]"""
+    return k.split(":")[0] in CONSTRAINED
+
+
 def up(x):
     return math.nextafter(x, math.inf)
 
@@ -79,7 +84,7 @@ def sp_tokens(sp):
     if k == "spacetime":
         tb = ["u"] if sp[3] is None else ["b", B(sp[3][0]), B(sp[3][1])]
         return ["spacetime", B(sp[1]), B(sp[2])] + tb + sp_tokens(sp[4])
-    if k in CONSTRAINED or k == "cforest":
+    if is_con(k) or k == "cforest":
         return [k] + sp_tokens(sp[1])
     raise ValueError(k)
 
@@ -161,7 +166,7 @@ def parse_space(t, i=0):
             tb = tuple(fl(2))
         inner, i = parse_space(t, i)
         return ("spacetime", vmax, tw, tb, inner), i
-    if k in CONSTRAINED or k == "cforest":
+    if is_con(k) or k == "cforest":
         inner, i = parse_space(t, i)
         return (k, inner), i
     raise ValueError("space kind " + k)
@@ -202,7 +207,7 @@ def prims(sp):
         return []
     if k == "spacetime":
         return prims(sp[4]) + [("time", sp[3])]
-    if k in CONSTRAINED or k == "cforest":
+    if is_con(k) or k == "cforest":
         return prims(sp[1])
     raise ValueError(k)
 
@@ -236,7 +241,7 @@ def units(sp, w=1.0):
         return [(("rv", sp[1], sp[2]), w, 2), (("so2",), w * 0.5, 1)]
     if k == "se3":
         return [(("rv", sp[1], sp[2]), w, 3), (("so3",), w, 4)]
-    if k == "wrap" or k == "cforest" or k in CONSTRAINED:      # pure forwarding
+    if k == "wrap" or k == "cforest" or is_con(k):      # pure forwarding
         return units(sp[1], w)
     if k == "spacetime":                                        # compound [(1-tw, space), (tw, time)]
         return units(sp[4], w * (1 - sp[2])) + [(("time", sp[3]), w * sp[2], 1)]
@@ -251,7 +256,7 @@ def contains(sp, pred):
     k = sp[0]
     if k == "cmp":
         return any(contains(s, pred) for _w, s in sp[1])
-    if k == "wrap" or k == "cforest" or k in CONSTRAINED:
+    if k == "wrap" or k == "cforest" or is_con(k):
         return contains(sp[1], pred)
     if k == "spacetime":
         return contains(sp[4], pred)
@@ -259,6 +264,13 @@ def contains(sp, pred):
 
 
 def impl_only(sp):
+    """no Lean model: a car-like space that is not at top level (e.g. inside a CForest wrapper).  At top level
+    Dubins / Reeds-Shepp / Vana are recomputed by C14's models, Owen / VanaOwen with recorded answers
+    (Model/SpaceDistCar.lean)."""
+    while sp[0] == "cforest":            # pure forwarding, modelled
+        sp = sp[1]
+    if sp[0] in IMPL_ONLY:
+        return False
     return contains(sp, lambda s: s[0] in IMPL_ONLY)
 
 
@@ -596,6 +608,12 @@ def shipped_spaces(r):
             ("spacetime", 2.0, 0.9, (0.0, 1.0), ("so3",)),
             ("spacetime", 1.0, 0.5, (0.0, 5.0), ("cmp", [(1.0, ("so2",)), (2.0, ("rv", [0.0], [3.0]))])),
             ("projected", box3), ("atlas", box3), ("tangentbundle", ("rv", [-1.0, -1.0], [1.0, 1.0])),
+            # other constraints (hyperplane x0 = 0, torus) and wrapped / compound ambient spaces (fd9a6cce3)
+            ("projected:plane", box3), ("atlas:torus", ("rv", [-3.0, -3.0, -1.0], [3.0, 3.0, 1.0])), ("tangentbundle:plane", box3),
+            ("projected:plane", ("se2", [-1.0, -1.0], [1.0, 1.0])), ("atlas:plane", ("wrap", ("se2", [-1.0, -1.0], [1.0, 1.0]))),
+            ("projected:torus", ("se3", [-3.0, -3.0, -1.0], [3.0, 3.0, 1.0])), ("tangentbundle:sphere", ("wrap", ("se3", [-1.0] * 3, [1.0] * 3))),
+            ("projected:plane", ("cmp", [(2.0, ("rv", [0.0], [1.0])), (0.5, ("so2",)), (1.0, ("time", (0.0, 2.0)))])),
+            ("cforest", ("atlas:torus", ("wrap", ("rv", [-3.0, -3.0, -1.0], [3.0, 3.0, 1.0])))),
             ("cforest", ("se2", [0.0, 0.0], [1.0, 1.0])), ("cforest", ("so3",)), ("cforest", ("cforest", ("disc", 0, 3))),
             ("cforest", ("spacetime", 1.0, 0.5, None, ("so2",))), ("cforest", ("projected", box3)),
             ("cforest", ("mobius", 1.0, 1.0)),
@@ -628,12 +646,12 @@ def car_spaces(r):
 def expand(sp):
     k = sp[0]
     if k == "se2":
-        return ("cmp", [(1.0, ("rv", list(sp[1]), list(sp[2]))), (0.5, ("so2",))])
+        return ("cmp", [(1.0, ("rv", list(sp[1]), list(sp[2]))), (0.5, ("so2",))], "se2")     # tag: a real SE2StateSpace
     if k == "se3":
-        return ("cmp", [(1.0, ("rv", list(sp[1]), list(sp[2]))), (1.0, ("so3",))])
+        return ("cmp", [(1.0, ("rv", list(sp[1]), list(sp[2]))), (1.0, ("so3",))], "se3")
     if k == "cmp":
         return ("cmp", [(w, expand(c)) for w, c in sp[1]])
-    if k == "wrap" or k == "cforest" or k in CONSTRAINED:
+    if k == "wrap" or k == "cforest" or is_con(k):
         return (k, expand(sp[1]))
     if k == "spacetime":
         return ("spacetime", sp[1], sp[2], sp[3], expand(sp[4]))
@@ -644,7 +662,7 @@ def children(sp):
     k = sp[0]
     if k == "cmp":
         return [c for _w, c in sp[1]]
-    if k == "wrap" or k == "cforest" or k in CONSTRAINED:
+    if k == "wrap" or k == "cforest" or is_con(k):
         return [sp[1]]
     if k == "spacetime":
         return [sp[4], ("time", sp[3])]
@@ -656,8 +674,8 @@ def with_child(sp, i, new):
     if k == "cmp":
         cs = list(sp[1])
         cs[i] = (cs[i][0], new)
-        return ("cmp", cs)
-    if k == "wrap" or k == "cforest" or k in CONSTRAINED:
+        return ("cmp", cs) + tuple(sp[2:])
+    if k == "wrap" or k == "cforest" or is_con(k):
         return (k, new)
     if k == "spacetime":
         if i == 0:
@@ -690,14 +708,25 @@ def apply_op(eff, op):
                 return ("rv", list(lo), list(hi))
             if n[0] == "time":
                 return ("time", (lo[0], hi[0]))
+            if n[0] == "disc":
+                return ("disc", int(lo[0]), int(hi[0]))
+            if n[0] == "cmp" and len(n) > 2:      # SE2/SE3StateSpace::setBounds forwarders
+                cs = list(n[1])
+                cs[0] = (cs[0][0], ("rv", list(lo), list(hi)))
+                return ("cmp", cs) + tuple(n[2:])
             raise ValueError("setbounds on " + n[0])
         return mod_at(eff, list(path), f)
+    if op[0] == "adddim":
+        _k, path, lo, hi = op
+        return mod_at(eff, list(path), lambda n: ("rv", list(n[1]) + [lo], list(n[2]) + [hi]))
+    if op[0] == "weights":
+        return eff
     _k, path, idx, w = op
 
     def g(n):
         cs = list(n[1])
         cs[idx] = (w, cs[idx][1])
-        return ("cmp", cs)
+        return ("cmp", cs) + tuple(n[2:])
     return mod_at(eff, list(path), g)
 
 
@@ -707,6 +736,11 @@ def op_line(op):
     if op[0] == "setbounds":
         _k, path, lo, hi = op
         return " ".join(["setbounds", str(len(path))] + [str(i) for i in path] + [str(len(lo))] + [B(x) for x in lo] + [B(x) for x in hi])
+    if op[0] == "adddim":
+        _k, path, lo, hi = op
+        return " ".join(["adddim", str(len(path))] + [str(i) for i in path] + [B(lo), B(hi)])
+    if op[0] == "weights":
+        return " ".join(["weights", str(len(op[1]))] + [str(i) for i in op[1]])
     k, path, idx, w = op
     return " ".join([k, str(len(path))] + [str(i) for i in path] + [str(idx), B(w)])
 
@@ -716,6 +750,25 @@ def make_hist(base, ops):
     for op in ops:
         eff = apply_op(eff, op)
     return ("hist", base, list(ops), eff)
+
+
+def pre_expected(sp):
+    """what the lines before `claims` must answer: `ok`, or for a `weights` query the CURRENT weights of that compound
+    (as tracked through the history, bit for bit; by index, by name and through getSubspaceWeights())"""
+    if sp[0] != "hist":
+        return ["ok"]
+    out = ["ok"]
+    eff = expand(sp[1])
+    for op in sp[2]:
+        eff = apply_op(eff, op)
+        if op[0] == "weights":
+            node = eff
+            for i in op[1]:
+                node = children(node)[i]
+            out.append(" ".join(["w", str(len(node[1]))] + [B(w) for w, _c in node[1]]))
+        else:
+            out.append("ok")
+    return out
 
 
 def pre_lines(sp):
@@ -733,7 +786,10 @@ def rand_history(r, base):
     cand = list(nodes(eff))
     for _ in range(r.range(1, 3)):
         path, n = r.choice(cand)
-        if n[0] == "rv" and n[1]:
+        if n[0] == "rv" and n[1] and len(n[1]) < 6 and r.chance(1, 4) and not (path and False):
+            lo = r.choice([0.0, -2.0, 5.0])
+            ops.append(("adddim", path, lo, lo + r.choice([1.0, 10.0, 0.5])))
+        elif n[0] == "rv" and n[1]:
             f = r.choice([10.0, 3.0, 0.5, 0.1, 100.0])
             lo, hi = [], []
             for l, h in zip(n[1], n[2]):
@@ -746,9 +802,18 @@ def rand_history(r, base):
         elif n[0] == "time":
             lo = r.choice([0.0, -5.0])
             ops.append(("setbounds", path, [lo], [lo + r.choice([2.0, 50.0, 0.25])]))
+        elif n[0] == "disc":
+            lo = r.range(-4, 4)
+            ops.append(("setbounds", path, [float(lo)], [float(lo + r.range(0, 12))]))
         elif n[0] == "cmp" and n[1]:
             idx = r.below(len(n[1]))
-            ops.append((r.choice(["setweight", "setweightn"]), path, idx, r.choice([2.0, 0.25, 0.1, 3.0, 1e3, 0.0, 1.0])))
+            if len(n) > 2 and r.chance(1, 3):           # a real SE2/SE3: bounds through the class's own setBounds
+                m = 2 if n[2] == "se2" else 3
+                ops.append(("setbounds", path, [-7.0] * m, [r.choice([7.0, 70.0])] * m))
+            else:
+                ops.append((r.choice(["setweight", "setweightn"]), path, idx, r.choice([2.0, 0.25, 0.1, 3.0, 1e3, 0.0, 1.0])))
+                eff = apply_op(eff, ops[-1])
+                ops.append(("weights", path))
         else:
             continue
         eff = apply_op(eff, ops[-1])
@@ -788,6 +853,12 @@ def history_spaces(r, n_random):
         make_hist(("cforest", se2), [("setweight", (0,), 1, 2.0)]),
         make_hist(("spacetime", 1.0, 0.5, (0.0, 5.0), se2), [("setup",), ("setweight", (0,), 1, 2.0), ("setbounds", (1,), [0.0], [20.0])]),
         make_hist(("torus", 1.0, 0.5), [("setup",)]),
+        make_hist(se2, [("setup",), ("setbounds", (), [-9.0, -9.0], [9.0, 9.0]), ("setweight", (), 1, 0.75), ("weights", ())]),
+        make_hist(("wrap", ("se3", [-1.0] * 3, [1.0] * 3)), [("setup",), ("setbounds", (0,), [-4.0] * 3, [4.0] * 3), ("weights", (0,))]),
+        make_hist(("disc", 0, 3), [("setup",), ("setbounds", (), [-2.0], [9.0])]),
+        make_hist(("cmp", [(2.0, ("disc", 0, 3)), (1.0, rv2)]), [("setup",), ("setbounds", (0,), [0.0], [40.0]), ("adddim", (1,), -3.0, 3.0)]),
+        make_hist(("wrap", rv2), [("setup",), ("adddim", (0,), 0.0, 25.0)]),
+        make_hist(("projected", box3), [("adddim", (0,), -5.0, 5.0), ("setup",)]),
     ]
     for i in range(n_random):
         rr = r.fork("hist%d" % i)
@@ -939,24 +1010,40 @@ def laws(sp, cl, ext, tr, res, count=None, scale=1.0):
 
 
 # ------------------------------------------------------------------------------- running
+def run_script_pair(ck, hbin, script, with_model=True):
+    """one script through the harness and (with the harness's recorded answers fed back) the model driver"""
+    impl, rc, err = ck.run_bin(hbin, script)
+    impl = impl or []
+    mscript = list(script)
+    for i, ln in enumerate(impl):
+        if ln.startswith("d ") and " rec " in ln:
+            head, _, rec = ln.partition(" rec ")
+            impl[i] = head
+            if i + 1 < len(mscript) and mscript[i + 1].startswith("dist "):
+                mscript[i + 1] = "distr " + mscript[i + 1][5:] + " rec " + rec
+    model = None
+    if with_model:
+        model, rc2, err2 = ck.run_bin(ck.driver(DRIVER), mscript)
+        if rc2 != 0:
+            raise RuntimeError("model driver failed (rc=%s): %s" % (rc2, (err2 or "")[-1000:]))
+    return impl, model, rc, err
+
+
 def run_batch(ck, hbin, blocks):
     """blocks: [(sp, triples)] -> (script, impl lines, model lines|None, rc, err)"""
     script = ["spacedist"]
     for sp, triples in blocks:
         script += space_lines(sp, triples)
-    impl, rc, err = ck.run_bin(hbin, script)
-    model = None
-    if not any(impl_only(sp) for sp, _ in blocks):
-        model, rc2, err2 = ck.run_bin(ck.driver(DRIVER), script)
-        if rc2 != 0:
-            raise RuntimeError("model driver failed (rc=%s): %s" % (rc2, (err2 or "")[-1000:]))
-    return script, impl or [], model, rc, err
+    impl, model, rc, err = run_script_pair(ck, hbin, script, with_model=not any(impl_only(sp) for sp, _ in blocks))
+    return script, impl, model, rc, err
 
 
 def cmp_line(a, b):
-    """'same' | 'drift' | 'diff'"""
+    """'same' | 'drift' | 'diff' | 'novalue' (the model declines: a default-constructed Dubins path)"""
     if a == b:
         return "same"
+    if b == "d none":
+        return "novalue"
     pa, pb = a.split(), b.split()
     if len(pa) == 2 and len(pb) == 2 and pa[0] == pb[0] and pa[0] in ("d", "ext"):
         x, y = F(pa[1]), F(pb[1])
@@ -1064,10 +1151,13 @@ def report_violation(ck, hbin, sp, tr, v, tag):
     law, idx, defect, text = v
     culprit, recs = classify(ck, hbin, sp, tr, v)
     script = minimal_script(sp, tr)
-    impl, rc, err = ck.run_bin(hbin, script)
-    model = None
-    if not impl_only(sp):
-        model = ck.run_bin(ck.driver(DRIVER), script)[0]
+    impl, model, rc, err = run_script_pair(ck, hbin, script, with_model=not impl_only(sp))
+    # `as_coded`: every value the implementation printed for this triple is bit-identical to the Lean model of the code
+    # as it stands (the function the `_fails` witnesses and the finding text are about).  Every finding line requires it,
+    # so a DIFFERENT wrong value — same law, same space, same input class — is not a known finding but a VIOLATION.
+    as_coded = model is not None and len(model) == len(impl) and all(cmp_line(a, b) == "same" for a, b in zip(impl, model))
+    for r in recs:
+        r["as_coded"] = bool(as_coded)
     extra = {"space": " ".join(sp_tokens(sp)), "history": [op_line(op) for op in sp[2]] if sp[0] == "hist" else None,
              "states": [st_tokens(sp, s) for s in tr], "what": text,
              "defect": defect, "generator": tag, "indices": list(idx)}
@@ -1110,7 +1200,7 @@ def search_around(ck, hbin, sp, tr, r, n=120):
         triples.append(t)
     script, impl, model, rc, err = run_batch(ck, hbin, [(sp, triples)])
     PRE = pre_lines(sp)
-    if not impl or any(x != "ok" for x in impl[:PRE]):
+    if not impl or impl[:PRE] != pre_expected(sp):
         return None
     cl, ext, ts = parse_block(impl[PRE:])
     if cl is None:
@@ -1122,6 +1212,8 @@ def search_around(ck, hbin, sp, tr, r, n=120):
         vs = laws(sp, cl, ext, t, res)
         for v in vs:
             _c, recs = classify(ck, hbin, sp, t, v)
+            for rec in recs:          # after a disagreement nothing is "as coded" any more: every violation counts
+                rec["as_coded"] = False
             if not all(ck.known_finding(rec) is not None for rec in recs):
                 return t, v
     return None
@@ -1142,11 +1234,13 @@ def judge_batch(ck, hbin, blocks, tag, state, pre=None):
         pos += n
         kind = "+".join(sorted(set(unit_kind(u[0]) for u in units(sp))))
         ck.count("space:" + sp[0])
-        if len(iout) < n or any(x != "ok" for x in iout[:PRE]):
+        if len(iout) < n or iout[:PRE] != pre_expected(sp):
             if state["bad"] < 4:
                 state["bad"] += 1
                 ck.report({"engine": "spacedist", "law": "crash", "culprit": kind,
-                           "what": "harness stopped or refused a well-formed space (rc=%s): %s" % (rc, (err or "")[-600:])},
+                           "what": "harness stopped, refused a well-formed space / history op, or reports other subspace "
+                                   "weights than were set (rc=%s): got %r, expected %r %s"
+                                   % (rc, iout[:PRE], pre_expected(sp), (err or "")[-400:])},
                           script=["spacedist"] + sl, observed=iout, expected=mout, engine="spacedist")
             continue
         cl, ext, ts = parse_block(iout[PRE:])
@@ -1206,6 +1300,9 @@ def judge_batch(ck, hbin, blocks, tag, state, pre=None):
                 ck.drift_events += 1
                 ck.count("drift:" + kind)
                 continue
+            if c == "novalue":
+                ck.count("model:no-value(default-constructed Dubins path):" + kind)
+                continue
             ck.disagreements += 1
             ck.count("disagreement:" + kind)
             if state["dis"] >= 3:
@@ -1222,8 +1319,7 @@ def judge_batch(ck, hbin, blocks, tag, state, pre=None):
                 state["bad"] += 1
             else:
                 ms = minimal_script(sp, tr) if tr is not None else ["spacedist"] + sl[:3]
-                o = ck.run_bin(hbin, ms)[0]
-                m = ck.run_bin(ck.driver(DRIVER), ms)[0]
+                o, m, _rc, _err = run_script_pair(ck, hbin, ms)
                 ck.report({"engine": "spacedist", "what": "model/implementation disagreement", "culprit": kind},
                           script=ms, expected=m, observed=o, found_input=False, engine="spacedist",
                           obligation="correspondence spacedist: %s: implementation printed %r, model %r (op %r)"
@@ -1274,8 +1370,7 @@ def weighted_sum_check(ck, hbin, sp, triples, ts, state):
                 if state["bad"] < 6:
                     state["bad"] += 1
                     script = minimal_script(sp, tr)
-                    impl = ck.run_bin(hbin, script)[0]
-                    model = ck.run_bin(ck.driver(DRIVER), script)[0]
+                    impl, model, _rc, _err = run_script_pair(ck, hbin, script)
                     ck.report({"engine": "spacedist", "law": "weightedsum", "culprit": "compound",
                                "space": " ".join(sp_tokens(sp)), "history": [op_line(op) for op in sp[2]] if sp[0] == "hist" else None,
                                "states": [st_tokens(sp, x) for x in tr], "indices": list(pq),
@@ -1407,7 +1502,7 @@ def replay(ck, data):
         sp, _ = parse_space(rec["space"].split())
         if not impl_only(sp):
             ck.lean_build([DRIVER])
-            model = ck.run_bin(ck.driver(DRIVER), script)[0]
+            impl, model, rc, err = run_script_pair(ck, hbin, script)
     for i, ln in enumerate(script[1:]):
         short = ln if len(ln) < 60 else ln[:57] + "..."
         x = impl[i] if impl and i < len(impl) else "<missing>"
@@ -1416,7 +1511,7 @@ def replay(ck, data):
             print("%-60s model: %s" % ("", model[i]))
     bad = False
     PRE = script.index("claims") - 1 if "claims" in script else 1
-    if "space" in rec and "states" in rec and impl and all(x == "ok" for x in impl[:PRE]):
+    if "space" in rec and "states" in rec and impl and all(x == "ok" or x.startswith("w ") for x in impl[:PRE]):
         tr = tuple(st_parse(sp, s) for s in rec["states"])
         cl, ext, ts = parse_block(impl[PRE:])
         if cl and ts and ts[0]:
